@@ -139,7 +139,16 @@ impl<K: SimKernel<D>, const D: usize> Monitor<K, D> for C09 {
                     }
                 }
                 Some(false) => {
-                    if is_dup_outcome(&o) {
+                    // A refusal is also legitimate when the insertion failed at the exact position,
+                    // retried at the documented perturbed position (1e-8 x local scale x (axis+1))
+                    // and THAT position is within tolerance of a live vertex: the refusal then
+                    // names a vertex that is present. Local scale <= the farthest live vertex.
+                    let reach: f64 = post.verts.iter().map(|v| v.coords.iter().zip(&coords).map(|(a, b)| (a - b).powi(2)).sum::<f64>().sqrt()).fold(1.0, f64::max);
+                    let near_a_retry_position = o.tick_kinds.iter().any(|(k, _)| k == "insert.perturbation_retry")
+                        && post.verts.iter().any(|v| v.coords.iter().zip(&coords).enumerate().all(|(i, (a, b))| (a - b).abs() <= 1.0001e-8 * reach * (i as f64 + 1.0) + 1.1 * TOL));
+                    if is_dup_outcome(&o) && near_a_retry_position {
+                        ctx.stats.bump("c09.refusal_names_a_live_vertex_next_to_the_retry_position");
+                    } else if is_dup_outcome(&o) {
                         push_violation(
                             ctx.violations,
                             violation(
